@@ -10,7 +10,7 @@ from ..properties import (
     HashesProperty, IDProperty, ListProperty, Property, ReferenceProperty,
     SelectorProperty, StringProperty, TimestampProperty, TypeProperty,
 )
-from ..utils import NOW, _get_dict
+from ..utils import NOW, Precision, _get_dict
 from .base import _STIXBase20
 from .vocab import HASHING_ALGORITHM
 
@@ -25,7 +25,7 @@ def _should_set_millisecond(cr, marking_type):
             return True
         else:
             return False
-    if getattr(cr, "precision", None) == 'millisecond':
+    if getattr(cr, "precision", None) == Precision.MILLISECOND:
         return True
     # a datetime with sub-second digits is kept the way text with a fraction is
     if getattr(cr, "microsecond", 0):
@@ -140,12 +140,12 @@ class MarkingDefinition(_STIXBase20, _MarkingsMixin):
             except KeyError:
                 raise ValueError("definition_type must be a valid marking type")
 
-            if 'created' in kwargs:
-                if _should_set_millisecond(kwargs['created'], marking_type):
-                    self._properties = copy.deepcopy(self._properties)
-                    self._properties.update([
-                        ('created', TimestampProperty(default=lambda: NOW, precision='millisecond')),
-                    ])
+            # (a generated creation time has sub-second digits, like text with a fraction)
+            if 'created' not in kwargs or _should_set_millisecond(kwargs['created'], marking_type):
+                self._properties = copy.deepcopy(self._properties)
+                self._properties.update([
+                    ('created', TimestampProperty(default=lambda: NOW, precision='millisecond')),
+                ])
 
             if not isinstance(kwargs['definition'], marking_type):
                 defn = _get_dict(kwargs['definition'])
